@@ -220,3 +220,14 @@ def violate(rep, key, what, case, cap=12):
     rep.dist['violations-seen:' + key] = n + 1
     if n < cap:
         rep.violate(key, what, case)
+
+
+def transfer_new_violations(pid, src, dst):
+    """Copy the violations of `src` into `dst`, except those whose key is an open entry of known_findings.json."""
+    import framework
+    known = {k['key'] for k in framework.load_known() if k['property'] == pid and k.get('status') == 'open'}
+    for v in src.violations:
+        if v['key'] in known:
+            print('  (known finding reproduced on this input: ' + v['key'] + ')')
+        else:
+            dst.violate(v['key'], v['what'], v['case'])
